@@ -2,7 +2,8 @@
    qupulse/hardware/util.py (voltage_to_uint16, get_waveform_length) and the Loop rewrites of program/loop.py that the
    Tabor compiler uses.  Definitions only (no proofs), executable, total; errors are explicit.
 
-   Source program  : `loop` tree (repetition count, "has measurements" flag, optional waveform reference, children)
+   Source program  : `loop` tree (repetition count, flags "has measurements" / "count is volatile", optional waveform
+                     reference, children)
                      + a waveform table `list wfdata` (equality class under Waveform.__eq__ after
                      get_subset_for_channels, length in samples as exact rational, samples per channel at k/rate).
    Compiler        : `compile cfg tbl prog : result out`
@@ -35,15 +36,24 @@ Notation "'do' x <- r ; k" := (bind r (fun x => k)) (at level 200, x pattern, r 
 (* ------------------------------------------------------------------------------------------------------------- *)
 (* Loop trees (program/loop.py, utils/tree.py)                                                                     *)
 
-Inductive loop := Loop (rep : Z) (meas : bool) (wf : option nat) (ch : list loop).
+(* per-node flags: measurements attached; repetition count is a VolatileRepetitionCount (its CURRENT value is `rep`) *)
+Record nmeta := { has_meas : bool; is_vol : bool }.
+Definition plain : nmeta := {| has_meas := false; is_vol := false |}.
+Definition clear_vol (m : nmeta) : nmeta := {| has_meas := has_meas m; is_vol := false |}.
+Definition merge_meta (p c : nmeta) : nmeta :=
+  {| has_meas := has_meas p || has_meas c; is_vol := is_vol p || is_vol c |}.
+
+Inductive loop := Loop (rep : Z) (meta : nmeta) (wf : option nat) (ch : list loop).
 
 Definition l_rep (l : loop) : Z := match l with Loop r _ _ _ => r end.
-Definition l_meas (l : loop) : bool := match l with Loop _ m _ _ => m end.
+Definition l_meas (l : loop) : bool := match l with Loop _ m _ _ => has_meas m end.
+Definition l_vol (l : loop) : bool := match l with Loop _ m _ _ => is_vol m end.
 Definition l_wf (l : loop) : option nat := match l with Loop _ _ w _ => w end.
 Definition l_ch (l : loop) : list loop := match l with Loop _ _ _ c => c end.
 Definition l_len (l : loop) : Z := Z.of_nat (length (l_ch l)).
 Definition is_leaf (l : loop) : bool := match l_ch l with [] => true | _ => false end.
-Definition set_rep (l : loop) (r : Z) : loop := match l with Loop _ m w c => Loop r m w c end.
+(* the repetition_count setter stores an int: a volatile count becomes a fixed one *)
+Definition set_rep (l : loop) (r : Z) : loop := match l with Loop _ m w c => Loop r (clear_vol m) w c end.
 Definition set_ch (l : loop) (c : list loop) : loop := match l with Loop r m w _ => Loop r m w c end.
 
 Definition zmax_list (l : list Z) : Z := fold_right Z.max 0 l.
@@ -68,19 +78,19 @@ Fixpoint balanced (l : loop) : bool :=
 Definition rep_concat {A} (n : Z) (l : list A) : list A := concat (repeat l (Z.to_nat n)).
 
 (* Loop.encapsulate (on a node that stays in place): the node's content moves one level down *)
-Definition encapsulate (l : loop) : loop := Loop 1 false None [l].
+Definition encapsulate (l : loop) : loop := Loop 1 plain None [l].
 
-(* Loop._has_single_child_that_can_be_merged (no volatile repetitions in the modelled domain) *)
+(* Loop._has_single_child_that_can_be_merged *)
 Definition can_merge (l : loop) : bool :=
   match l_ch l with
-  | [c] => negb (l_meas l) || (l_rep c =? 1)
+  | [c] => negb (l_meas l) || ((l_rep c =? 1) && negb (l_vol c))
   | _ => false
   end.
 
 (* Loop._merge_single_child *)
 Definition merge_child (l : loop) : loop :=
   match l with
-  | Loop r m _ [Loop cr cm cw cch] => Loop (r * cr) (m || cm) cw cch
+  | Loop r m _ [Loop cr cm cw cch] => Loop (r * cr) (merge_meta m cm) cw cch   (* volatile if either count is *)
   | _ => l
   end.
 
@@ -119,17 +129,24 @@ Definition sum_reps (l : list loop) : Z := fold_right (fun c s => l_rep c + s) 0
 
 (* Loop.unroll_children *)
 Definition unroll_children (l : loop) : loop :=
-  match l with Loop r m w ch => Loop 1 m w (rep_concat r ch) end.
+  match l with Loop r m w ch => Loop 1 (clear_vol m) w (rep_concat r ch) end.
 
-(* Loop.split_one_child(child_index=None): the LAST child with repetition count > 1 is split into (n-1, 1) *)
-Fixpoint split_last (l : list loop) : option (list loop) :=
+(* Loop.split_one_child(child_index=None): the LAST child with repetition count > 1 whose count is not volatile —
+   if there is none, the last child with (volatile) count > 1 — is split into (n-1, 1); both parts get fixed counts *)
+Fixpoint split_last_p (p : loop -> bool) (l : list loop) : option (list loop) :=
   match l with
   | [] => None
   | c :: t =>
-      match split_last t with
+      match split_last_p p t with
       | Some t' => Some (c :: t')
-      | None => if l_rep c >? 1 then Some (set_rep c (l_rep c - 1) :: set_rep c 1 :: t) else None
+      | None => if (l_rep c >? 1) && p c then Some (set_rep c (l_rep c - 1) :: set_rep c 1 :: t) else None
       end
+  end.
+
+Definition split_last (l : list loop) : option (list loop) :=
+  match split_last_p (fun c => negb (l_vol c)) l with
+  | Some l' => Some l'
+  | None => split_last_p (fun _ => true) l
   end.
 
 (* `while len(st) < min_seq_len: st.split_one_child()`; k bounds the number of iterations (each adds one child) *)
@@ -148,13 +165,14 @@ Fixpoint split_until (k : nat) (mn : Z) (st : loop) : result loop :=
 (* _check_partial_unroll: None = returned False *)
 Definition partial_unroll (st : loop) (mn : Z) : option (result loop) :=
   let s := sum_reps (l_ch st) in
-  if s * l_rep st >=? mn then
+  if l_vol st then None                                    (* if st.volatile_repetition: return False *)
+  else if s * l_rep st >=? mn then
     let st1 := if s <? mn then unroll_children st else st in
     Some (split_until (Z.to_nat (mn - l_len st1)) mn st1)
   else None.
 
 Definition merge_ok (a b : loop) (mx : Z) : bool :=
-  (l_rep a =? 1) && (l_rep b =? 1) && (l_len a + l_len b <? mx).
+  (l_rep a =? 1) && (l_rep b =? 1) && negb (l_vol a) && negb (l_vol b) && (l_len a + l_len b <? mx).
 Definition append_children (a b : loop) : loop := set_ch a (l_ch a ++ l_ch b).
 Definition prepend_children (a b : loop) : loop := set_ch b (l_ch a ++ l_ch b).
 Definition dec_rep (a : loop) : loop := set_rep a (l_rep a - 1).
@@ -176,7 +194,7 @@ Definition prep_step (mn mx : Z) (before after : list loop) : pstep :=
       if l_len cur >? mx then PErr ETooLong
       else if l_len cur <? mn then
         if negb (l_rep cur >? 0) then PErr EAssert
-        else if l_rep cur =? 1 then
+        else if (l_rep cur =? 1) && negb (l_vol cur) then
           match before with
           | p :: bt => if merge_ok p cur mx then PNext (append_children p cur :: bt) rest else
               match rest with
@@ -481,8 +499,8 @@ Definition compile_with (ff pf : nat) (c : cfg) (tbl : list wfdata) (prog : loop
   if negb (c_nchan c =? c_cpp c) then Err EChannels
   else if negb (c_nmark c =? c_cpp c) then Err EChannels
   else
-    let prog1 := if (l_rep prog >? 1) || (depth prog =? 0)
-                 then Loop 1 false None [prog] else prog in
+    let prog1 := if (l_rep prog >? 1) || l_vol prog || (depth prog =? 0)
+                 then Loop 1 plain None [prog] else prog in
     let advanced := match c_mode c with Some m => m | None => depth prog1 >? 1 end in
     if negb (c_nchan c =? 2) then Err EBadInput          (* ProgramEntry asserts equal tuple lengths; only pairs modelled *)
     else if negb advanced then
